@@ -67,8 +67,11 @@ def warmup(tier: str) -> None:
     from hiten import System
     from simkit.driver import load_known
     KNOWN.update(load_known(PROPERTY))
-    U["sys_real"] = {"em": System.from_bodies("earth", "moon"), "se": System.from_bodies("sun", "earth")}
     U["sys_twin"] = {"em": System.from_bodies("earth", "moon"), "se": System.from_bodies("sun", "earth")}
+    # The systems under test are built from the bare mass ratios: their bodies carry the same generic names, so any
+    # cache that identifies a system by names/labels instead of by identity or mu collides here, while the twins'
+    # systems (named bodies) cannot.
+    U["sys_real"] = {k: System.from_mu(float(v.mu)) for k, v in U["sys_twin"].items()}
     _TMPDIR = tempfile.mkdtemp(prefix="verif_c20_")
     from checks import c20_orbit, c20_cm, c20_manifold
     c20_orbit.warmup(U, tier)
